@@ -1,3 +1,5 @@
+//go:debug randseednop=0
+
 package csim
 
 import (
